@@ -147,29 +147,37 @@ Proof.
   - eexists; reflexivity.
 Qed.
 
-(* the initial Krylov size is clamped into the same range, whatever the caller asks for: without this a rejected first pass with
-   ncv > ncv_max left the controller with nothing to change (the loop did not terminate; fixed in /repo, see known_findings.json) *)
-Theorem ncv0_range ncv ncv_max : 1 <= ncv_max -> 1 <= expmv_ncv0 ncv ncv_max /\ expmv_ncv0 ncv ncv_max <= ncv_max.
-Proof.
-  intro H. unfold expmv_ncv0. split. - apply Q.le_max_l.
-  - apply Q.max_lub; [exact H|]. apply Q.le_min_r.
-Qed.
+(* the Krylov size never exceeds the bound the controller works with: initially (the bound is raised to the requested size -- with a smaller
+   bound a rejected first pass left the controller with a basis it could not shrink and nothing to change: the loop did not terminate; fixed in
+   /repo, see known_findings.json), and the bound only grows afterwards *)
+Theorem ncv0_range ncv vsize : 1 <= expmv_ncv0 ncv /\ expmv_ncv0 ncv <= expmv_ncv_max (expmv_ncv0 ncv) vsize.
+Proof. unfold expmv_ncv0, expmv_ncv_max. split; [apply Q.le_max_l|apply Q.le_max_l]. Qed.
+Theorem ncv_max_grows ncv_max supp : ncv_max <= expmv_ncv_max_grow ncv_max supp.
+Proof. unfold expmv_ncv_max_grow. apply Q.le_max_l. Qed.
 
 (* dimension bookkeeping of the three solvers *)
 Theorem expmv_m_spec lenV : expmv_m_happy lenV = krylov_m true lenV /\ expmv_m_unhappy lenV = krylov_m false lenV.
 Proof. split; reflexivity. Qed.
-Theorem eigs_dims happy lenV : 1 <= lenV ->
-  eigs_m happy lenV = krylov_m happy lenV /\ eigs_kept (eigs_m happy lenV) = eigs_T_dim (eigs_m happy lenV)
-  /\ eigs_kept (eigs_m happy lenV) <= lenV /\ (happy = true -> eigs_kept (eigs_m happy lenV) == lenV).
+Theorem eigs_dims happy lenV supp : 1 <= lenV -> let m := eigs_m_cap (eigs_m happy lenV) supp in
+  eigs_m happy lenV = krylov_m happy lenV /\ eigs_kept m = eigs_T_dim m /\ eigs_kept m <= lenV /\ eigs_kept m <= supp
+  /\ (happy = true -> lenV <= supp -> eigs_kept m == lenV).
 Proof.
-  intro H. unfold eigs_m, eigs_kept, eigs_T_dim, krylov_m.
-  destruct happy; (split; [reflexivity|split; [reflexivity|split; [lra|intro; try discriminate; lra]]]).
+  intros H m. unfold m, eigs_m_cap, eigs_m, eigs_kept, eigs_T_dim, krylov_m.
+  destruct happy; (split; [reflexivity|split; [reflexivity|split; [|split; [apply Q.le_min_r|]]]]).
+  - eapply Qle_trans; [apply Q.le_min_l|lra].
+  - intros _ Hs. apply Q.min_l. exact Hs.
+  - eapply Qle_trans; [apply Q.le_min_l|lra].
+  - intro; discriminate.
 Qed.
-Theorem lin_solver_dims happy lenV : 1 <= lenV -> let m := lin_solver_m happy lenV in
-  m = krylov_m happy lenV /\ lin_solver_T_rows m == lin_solver_rhs_len m /\ lin_solver_T_cols m == lin_solver_kept m
+Theorem lin_solver_dims happy lenV supp : 1 <= lenV -> let m := lin_solver_m_cap (lin_solver_m happy lenV) supp in
+  lin_solver_m happy lenV = krylov_m happy lenV /\ lin_solver_T_rows m == lin_solver_rhs_len m /\ lin_solver_T_cols m == lin_solver_kept m
   /\ lin_solver_T_rows m <= lin_solver_T_dim m /\ lin_solver_T_cols m <= lin_solver_T_dim m
-  /\ lin_solver_kept m <= lenV /\ (happy = true -> lin_solver_kept m == lenV).
+  /\ lin_solver_kept m <= lenV /\ lin_solver_kept m <= supp /\ (happy = true -> lenV <= supp -> lin_solver_kept m == lenV).
 Proof.
-  intros H m. unfold m, lin_solver_m, lin_solver_kept, lin_solver_T_dim, lin_solver_T_rows, lin_solver_T_cols, lin_solver_rhs_len, krylov_m.
-  destruct happy; (split; [reflexivity|split; [lra|split; [lra|split; [lra|split; [lra|split; [lra|intro; try discriminate; lra]]]]]]).
+  intros H m.
+  assert (Hm : m <= lenV). { unfold m, lin_solver_m_cap, lin_solver_m. eapply Qle_trans; [apply Q.le_min_l|]. destruct happy; lra. }
+  unfold lin_solver_kept, lin_solver_T_dim, lin_solver_T_rows, lin_solver_T_cols, lin_solver_rhs_len.
+  split; [unfold lin_solver_m, krylov_m; reflexivity|]. split; [lra|]. split; [lra|]. split; [lra|]. split; [lra|]. split; [exact Hm|]. split.
+  - unfold m, lin_solver_m_cap. apply Q.le_min_r.
+  - intros Hh Hs. unfold m, lin_solver_m_cap, lin_solver_m. rewrite Hh. apply Q.min_l. exact Hs.
 Qed.
